@@ -378,7 +378,8 @@ Proof.
       apply sr_exception_X with (fuel := fuel_of s0). intros; apply sr_attempt_X; auto.
       eapply J_jrel. apply tr_close_jr. eapply J_jrel. apply upd_task_jr. exact HJ.
       rewrite (mu_rs _ _ (rs_frame _ _ (tr_close_frame s0 t))). pose proof (mu_fuel s0). lia.
-    + set (s0 := upd_task s k _). set (s1 := s0 <| s_transport := Some t |>).
+    + destruct (has_waiter k t (s_ready s)). { split; auto. apply noexc_nil. }
+      set (s0 := upd_task s k _). set (s1 := s0 <| s_transport := Some t |>).
       apply sr_after_send_X with (fuel := fuel_of s1). intros; apply sr_attempt_X; auto.
       assert (J0 : J s0) by (eapply J_jrel; [apply upd_task_jr | exact HJ]).
       eapply J_jrel. 2: exact J0. jr_same. pose proof (mu_fuel s1). lia.
@@ -416,7 +417,7 @@ Proof.
   - split; auto. apply noexc_nil.
   - destruct (get_task k (s_tasks s)) as [tk|]. 2: { split; auto. apply noexc_nil. }
     destruct (t_pc tk); try (split; [exact HJ | apply noexc_nil]).
-    destruct (t_cancelled tk). split; auto. apply noexc_nil. apply X_of with (s := s); auto. apply push_jr; auto. apply noexc_nil.
+    destruct (_ || _). split; auto. apply noexc_nil. apply X_of with (s := s); auto. apply push_jr; auto. apply noexc_nil.
   - destruct (tstate_of s t); try (split; [exact HJ | apply noexc_nil]). destruct i.
     + destruct (received_X s id len v HJ (Hc eq_refl)) as [R N]. split; auto. eapply J_jrel; eauto.
     + apply X_of with (s := s); auto. 2: apply noexc_nil. cbn [fst]. eapply jrel_trans. apply close_transport_jr. apply tr_close_jr.
